@@ -673,8 +673,9 @@ type c19RspExpect struct {
 	// further field lists the statement leaves to the writer (part writer-response-ops: the states
 	// the handler's header map went through after the final WriteHeader and before the handler ended)
 	alts [][]c19Field
-	// altTrailers[j]: the trailer section that goes with alts[j] (the trailers the header map declared
-	// in that state); nil slice: `trailer` goes with every alternative
+	// altTrailers[j]: the trailer section of the header map in the state of alts[j] (the trailers the
+	// map declared then). As the statement is silent about those states, each of them - and
+	// `trailer`, the one of `fields` - is accepted, whichever of the field lists the section shows.
 	altTrailers []http.Header
 }
 
@@ -930,12 +931,13 @@ func c19JudgeRspWire(pfx, at string, wire []byte, valid bool, sections []c19RspE
 			}
 		}
 		later := false
+		trailer0 := sec.trailer
 		if g != w {
 			for j, alt := range sec.alts {
 				if v2, a2, w2 := render(alt); g == w2 {
 					view, ann, w, later = v2, a2, w2, true
 					if sec.altTrailers != nil {
-						sec.trailer = sec.altTrailers[j]
+						sec.trailer = sec.altTrailers[j] // the one that goes with the state shown (for the outcome class)
 					}
 					break
 				}
@@ -958,18 +960,31 @@ func c19JudgeRspWire(pfx, at string, wire []byte, valid bool, sections []c19RspE
 		if err == nil && !skipBody && string(body) != wantBody {
 			return "", explore.Failf(pfx+"/body-differs"+at, "body %s, want %s; on the wire %v", c19ShortData(body), c19ShortData([]byte(wantBody)), emittedAll())
 		}
-		if err == nil && sec.trailer != nil {
-			if g, w := c19RenderHeader(rsp.Trailer), c19RenderHeader(sec.trailer); g != w {
-				return "", explore.Failf(pfx+"-trailers/fields-differ"+at, "client sees trailers %s, the handler set %s; on the wire %v", g, w, emittedAll())
-			}
-		}
-		if err == nil && sec.trailer == nil {
-			// the message has no trailer fields: the client may know announced names (nil values), but no values
+		if err == nil {
+			// the trailer fields the client has received (announced names without a value are not fields)
+			got := http.Header{}
 			for k, vv := range rsp.Trailer {
 				if len(vv) > 0 {
-					return "", explore.Failf(pfx+"-trailers/fields-differ:unexpected:"+strings.ToLower(k)+at,
-						"client sees trailers %s, the message has none (nothing set by the handler is declared as a trailer by the section's header map); on the wire %v", c19RenderHeader(rsp.Trailer), emittedAll())
+					got[k] = vv
 				}
+			}
+			g := c19RenderHeader(got)
+			ok := g == c19RenderHeader(sec.trailer) || g == c19RenderHeader(trailer0)
+			for _, alt := range sec.altTrailers {
+				ok = ok || g == c19RenderHeader(alt) // also left to the writer, see altTrailers
+			}
+			switch {
+			case ok:
+			case sec.trailer != nil:
+				return "", explore.Failf(pfx+"-trailers/fields-differ"+at, "client sees trailers %s, the handler set %s; on the wire %v", g, c19RenderHeader(sec.trailer), emittedAll())
+			default:
+				ks := make([]string, 0, len(got))
+				for k := range got {
+					ks = append(ks, strings.ToLower(k))
+				}
+				sort.Strings(ks)
+				return "", explore.Failf(pfx+"-trailers/fields-differ:unexpected:"+strings.Join(ks, ",")+at,
+					"client sees trailers %s, the message has none (nothing the handler has set is declared as a trailer by the header map); on the wire %v", g, emittedAll())
 			}
 		}
 		out := fmt.Sprintf("%s: round trip ok, %d", class, sec.status)
